@@ -22,6 +22,7 @@ from dsim import kernel
 from dsim.kernel import Violation
 
 NAME = "e2"
+REWIRE = True
 CHUNK = 50
 # runs per tier (quick, thorough)
 RUNS = {"C15": (40000, 600000), "C16": (40000, 600000), "C17": (40000, 600000), "C20": (20000, 200000)}
